@@ -160,13 +160,13 @@ RecAfter == /\ IsFlight /\ scn = None /\ k = Len(F0.msgs) + 1 /\ F0.recs /\ F0.s
 
 \* post-handshake phase: the transport of the client's outgoing direction is fixed, then the server sends one
 \* element after the other; every prefix (the empty one included) is a scenario: the client then calls Read, Write, Close
-PostStart == /\ IsFlight /\ scn = None /\ k = Len(F0.msgs) + 1 /\ F0.side = "s" /\ F0.post > 0 /\ CtxOf(c).v13
+PostStart == /\ IsFlight /\ scn = None /\ k = Len(F0.msgs) + 1 /\ F0.side \in {"s", "c"} /\ F0.post > 0 /\ CtxOf(c).v13
              /\ \E t \in DOMAIN Transports :
                    scn' = [kind |-> "post", case |-> F0.case, side |-> F0.side, msg |-> 0 - 1, st |-> st, tr |-> Transports[t], seq |-> <<>>]
              /\ UNCHANGED <<c, k, st, out>>
 PostSend == /\ IsFlight /\ scn # None /\ scn.kind = "post" /\ out = "pending" /\ Len(scn.seq) < F0.post
             /\ (IF scn.seq = <<>> THEN TRUE ELSE scn.seq[Len(scn.seq)] # "close")
-            /\ \E e \in DOMAIN PostKinds : scn' = [scn EXCEPT !.seq = Append(@, PostKinds[e])]
+            /\ \E e \in DOMAIN PostKindsOf(F0.side) : scn' = [scn EXCEPT !.seq = Append(@, PostKindsOf(F0.side)[e])]
             /\ UNCHANGED <<c, k, st, out>>
 
 \* structured documents: one tree position, one operator
